@@ -133,3 +133,22 @@ Definition update_last (lc : option gst) (cs : list cmd) : option gst :=
 Definition last_set (cs : list cmd) : option gst := update_last None cs.
 
 Definition is_set_state (c : cmd) : Prop := match c with CSetState _ => True | _ => False end.
+
+(* ---------------------------------------------------------------- the pre-fix payload *)
+
+(* Before repo commit 38eca32 the tags_changed event of on_stream_start carried
+   `tags.keys()`, a live view of the dict that had just become Audio._tags.  A consumer
+   reading the payload after the further inputs `rest` saw the keys of that dict object as
+   mutated in place by on_tag, i.e. up to the first input that REBINDS Audio._tags
+   (STREAM_START, EOS). *)
+Fixpoint until_rebind (rest : list input) : list input :=
+  match rest with
+  | [] => []
+  | i :: t => if boundary i then [] else i :: until_rebind t
+  end.
+
+Definition late_view_keys (pre rest : list input) : list key :=
+  dict_keys (tags (final (final init (pre ++ [StreamStart])) (until_rebind rest))).
+
+Definition sent_keys (pre : list input) : list key :=
+  tag_keys (o_evs (snd (step (final init pre) StreamStart))).
